@@ -34,9 +34,10 @@ ASSUMPTIONS = [
     'frames outside beartype (stdlib, user callbacks) are atomic unless they call back into beartype',
     'no pre-emption while the global import lock is held or while the running task is inside an import',
 ]
-PROBES = ['preempted_runs', 'lock_contended', 'cold_shared_hint', 'conf_race', 'typehint_race', 'typehint_use_ops', 'claw_ops', 'warn_mode_ops']
+PROBES = ['preempted_runs', 'lock_contended', 'cold_shared_hint', 'conf_race', 'typehint_race', 'typehint_use_ops', 'claw_ops', 'warn_mode_ops',
+          'fwdref_first_calls']
 
-HOT = ['utilcachepool', 'utilmapunbounded', 'confmain', 'clawpkg', 'utilcachecall', 'doormeta', 'doorsuper',
+HOT = ['utilcachepool', 'utilmapunbounded', 'confmain', 'clawpkg', 'utilcachecall', 'doormeta', 'doorsuper', 'fwdrefmeta', 'fwdresolve',
        '_clawimpfileloader', 'checkmake', 'utilerrwarn', 'decorcache', 'clawstate', 'utilmaplru', 'utilcacheobjattr']
 
 
@@ -184,6 +185,14 @@ def generate(rng, run, tier):
             # ... or concentrated on the windows right after a pool call returned
             strategy = {'kind': 'afterhot', 'hot': ['utilcachepool'], 'window': rng.choice([1, 2, 3]),
                         'p_after': rng.choice([0.1, 0.25, 0.5]), 'p_hot': 0.0, 'p_cold': rng.choice([0.0, 0.0005, 0.001])}
+    if rng.random() < 0.07:
+        # scenario "first resolution": one function decorated (sequentially, in the prelude) with a string annotation whose
+        # name is defined only afterwards; all threads then call it for the first time at once (forward-reference proxy
+        # resolution and its memo tables under contention), some with conforming, some with violating arguments
+        text = rng.choice(['Later', 'list[Later]', 'Optional[Later]', 'dict[str, Later]', 'tuple[Later, ...]', 'Later | None'])
+        prelude = [{'op': 'fwd_def', 'text': text, 'nfuncs': rng.choice([1, 1, 2])}]
+        threads = [[{'op': 'fwd_call', 'f': rng.randrange(2), 'xk': rng.choice(['inst', 'inst', 'wrapped', 'other', 'int'])}
+                    for _ in range(rng.randint(1, 3))] for _ in range(nthreads)]
     avoid_cw = rng.random() < 0.8
     if avoid_cw:
         # known finding C15-catch-warnings: warnings.catch_warnings is process-global. Most runs steer around it:
@@ -275,6 +284,27 @@ def _run_op(op, ctx):
             r1 = _norm_call(lambda: K2().m(x))
             r2 = _norm_call(lambda: K2.c(x))
             out = ['ok', [K2 is K, r1, r2]]
+        elif k == 'fwd_def':
+            import sys as _sys
+            import types as _types
+            mod = _types.ModuleType('c15_fwd_mod')
+            _sys.modules['c15_fwd_mod'] = mod
+            src = 'from beartype import beartype\nfrom typing import Optional\n'
+            for j in range(op.get('nfuncs', 1)):
+                src += '@beartype\ndef f%d(a: %r):\n    return a\n' % (j, op['text'])
+            exec(compile(src, '<c15-fwd>', 'exec'), mod.__dict__)
+            mod.Later = type('Later', (), {'__module__': 'c15_fwd_mod'})       # defined only after the decorations
+            ctx['fwd'] = (mod, op['text'])
+            out = ['ok', None]
+        elif k == 'fwd_call':
+            mod, text = ctx['fwd']
+            f = getattr(mod, 'f%d' % op['f'], None) or mod.f0
+            inst = mod.Later()
+            x = {'inst': inst, 'other': object(), 'int': 5}.get(op['xk'])
+            if op['xk'] == 'wrapped':
+                x = [inst] if text.startswith('list') else ({'k': inst} if text.startswith('dict') else ((inst,) if text.startswith('tuple') else inst))
+            r = f(x)
+            out = ['ok', r is x]
         elif k == 'is_subhint':
             out = ['ok', door.is_subhint(H.build_hint(op['a']), H.build_hint(op['b']))]
         elif k == 'infer':
@@ -558,6 +588,7 @@ def execute(case):
         'conf_race': 1 if sum(1 for t in case['threads'] if any(o['op'] == 'conf' for o in t)) > 1 else 0,
         'typehint_race': 1 if sum(1 for t in case['threads'] if any(o['op'] in ('typehint', 'th_use') for o in t)) > 1 else 0,
         'typehint_use_ops': sum(1 for t in case['threads'] for o in t if o['op'] == 'th_use'),
+        'fwdref_first_calls': sum(1 for t in case['threads'] for o in t if o['op'] == 'fwd_call'),
         'claw_ops': sum(1 for t in case['threads'] for o in t if o['op'].startswith('claw') or o['op'].startswith('bt_')),
         'warn_mode_ops': sum(1 for t in case['threads'] for o in t if ops.conf_is_warn(o.get('conf'))),
         'cw_overlaps': len(cw_overlaps),
